@@ -34,7 +34,7 @@ PROBES_EXPECTED = ('iter.producer_thread_used', 'iter.inline_path', 'iter.to_asy
 
 
 def batches(tier):
-    k = 1 if tier == 'quick' else 12
+    k = 1 if tier == 'quick' else 40
     return [{'name': 'to_async', 'n': 10000 * k, 'profile': 'c16-async'},
             {'name': 'to_sync', 'n': 8000 * k, 'profile': 'c16-sync'}]
 
